@@ -208,6 +208,11 @@ def cases(tier, rng):
             for s in strs:
                 yield {"op": "retarget", "src": alph[a], "tgt": alph[b], "s": s, "names": [a, b]}
                 yield {"op": "change", "src": alph[a], "tgt": alph[b], "s": s, "names": [a, b]}
+                # the same data STORED INTO an array of the other alphabet (item assignment is one more way of presenting
+                # already-encoded data to another alphabet encoding): flat and into a row of a ragged array
+                if big or rng.random() < 0.35:
+                    yield {"op": "assign", "src": alph[a], "tgt": alph[b], "s": s, "names": [a, b], "ragged": rng.random() < 0.5,
+                           "pad": rng.choice([0, 1, 2])}
     # 5. custom alphabets (duplicate-free, upper-case or symbols)
     sym = [ord(c) for c in "ABCDEFGHXYZ*+-=.0123"]
     for _ in range(400 if big else 80):
@@ -222,7 +227,7 @@ def cases(tier, rng):
 def nontrivial(c):
     if c["op"] in ("enc_byte", "offset_byte", "offset_rows"):
         return True
-    if c["op"] in ("retarget", "change", "retarget_view", "change_view"):
+    if c["op"] in ("retarget", "change", "retarget_view", "change_view", "assign"):
         return c["src"] != c["tgt"]
     if c["op"] == "enc_np":
         return True
@@ -303,6 +308,22 @@ def impl(c):
             if not (y.encoding == T):
                 return {"rows": None, "wrong_encoding": str(y.encoding)}
             return {"rows": [[int(b) for b in T.decode(row).raw().ravel()] for row in y]}
+        if op == "assign":
+            S, T = _enc_obj(c, "src", 0), _enc_obj(c, "tgt", 1)
+            y = as_encoded_array(_text(c["s"]), S)
+            base = [c["tgt"][0]] * (len(c["s"]) + c["pad"])
+            if c["ragged"]:
+                x = as_encoded_array([_text(base), _text(c["tgt"][:1])], T)
+                x[0, c["pad"]:c["pad"] + len(c["s"])] = y
+                out = x[0]
+            else:
+                x = as_encoded_array(_text(base), T)
+                x = x if x.raw().flags.writeable else x.copy()
+                x[c["pad"]:c["pad"] + len(c["s"])] = y
+                out = x
+            if not (x.encoding == T):
+                return {"text": None, "wrong_encoding": str(x.encoding)}
+            return {"text": [int(v) for v in T.decode(out).raw().ravel()][c["pad"]:]}
         if op in ("retarget", "change"):
             S, T = _enc_obj(c, "src", 0), _enc_obj(c, "tgt", 1)
             x = as_encoded_array(_text(c["s"]), S)
@@ -316,7 +337,7 @@ def impl(c):
     except Exception as e:
         if op == "enc_np" and c["foreign"] is not None:
             return {"err": "encoding", "offset": None}     # any exception rejects the foreign character (NumPy-level code points raise OverflowError)
-        if op in ("retarget", "change", "retarget_view", "change_view"):
+        if op in ("retarget", "change", "retarget_view", "change_view", "assign"):
             # the property allows these to raise (any exception) instead of returning data; only silent change is a failure
             return {"err": "encoding", "offset": None}
         return {"err": "other:" + type(e).__name__}
@@ -374,7 +395,7 @@ def oracle(c):
         return {"codes": [(b - m) % 256 for b in flat], "lens": [len(r) for r in c["rows"]], "dec": flat, "input_unchanged": True}
     if op in ("retarget_view", "change_view"):
         return {"rows_or_error": [[_up(b) for b in r] for r in _select_rows(c["rows"], c)]}
-    if op in ("retarget", "change"):
+    if op in ("retarget", "change", "assign"):
         return {"text_or_error": [_up(b) for b in c["s"]]}
     A = _static_alphabet(c["enc"])
     if op == "enc_np":
@@ -422,6 +443,8 @@ def agree(c, got, exp):
 
 
 def model_request(c):
+    if c["op"] == "assign":
+        return None        # decided against the oracle: same text or an error (the model's retarget rule is compared by the retarget op)
     if c["op"] == "enc_np":
         return None        # entry-path dispatch: decided against the oracle (the byte-level model is the same as enc_ragged)
     if c["op"] in ("retarget_view", "change_view"):
@@ -440,8 +463,8 @@ def finding_key(c, got, exp):
         if isinstance(got, dict) and "err" in got and "err" not in exp:
             return "encode:rejects-alphabet-member"
         return "encode:wrong-result"
-    if op in ("retarget", "retarget_view"):
-        return "retarget:silently-different-text"
+    if op in ("retarget", "retarget_view", "assign"):
+        return "retarget:silently-different-text" if op != "assign" else "assign:silently-different-text"
     return "change_encoding:silently-different-text"
 
 
